@@ -587,6 +587,15 @@ func (l *lexer) newNumeric(lit string) *ast.NumericNode {
 	return ast.NewNumeric(lit)
 }
 
+// regexError records the error returned by ast.NewRegex and returns operand
+// in place of the nil *ast.RegexNode, so that the parser can go on reducing
+// the rest of the input (for example a following accessor) without
+// dereferencing a nil node.
+func (l *lexer) regexError(operand ast.Node, err error) ast.Node {
+	l.Error(err.Error())
+	return operand
+}
+
 // setPred indicates that the path being lexed is a predicate path query.
 // Called by the parser grammar.
 func (l *lexer) setPred() {
